@@ -688,7 +688,7 @@ def _delegation_chain(repo, fi, depth=3):
 def _reported_count(rep, repo, st):
     """layer order of the *reported* per-status dict: the 'count' entry taken from total_count must be the last writer of
     that key (describe() brings its own 'count' = number of retained samples)"""
-    grs = st.func('_get_route_stats')
+    grs = _route_summary_func(repo, st)
     vals = _reported_values(repo, grs)
     if not vals:
         raise AnalysisError('_get_route_stats: cannot find the per-status dict it reports')
@@ -714,6 +714,32 @@ def _reported_count(rep, repo, st):
             break
     rep.check('R19.b', fkey(grs, "['count']"), ok, 'reported count is the reservoir total_count (not the sample size)' if ok else
               'reported count is not the reservoir\'s total_count: %s' % why, grs.mod, grs.node)
+
+
+def _route_summary_func(repo, st):
+    """The function that summarises one route, found by its role: the module-level function on the report path (what the report
+    endpoint runs) one of whose parameters is, at every call site, one route's table -- a mapping whose values are reservoirs (objects
+    of a class of the tree with an add()).  Where the types do not single one out: the function of that name."""
+    cands = []
+    try:
+        path = _report_path(repo, st, st.func('get_stats_dict'))
+    except AnalysisError:
+        path = []
+    for fi in path:
+        if fi.cls is not None:
+            continue
+        for p in fi.params():
+            try:
+                t = _param_type(repo, fi, p, 0)
+            except AnalysisError:
+                t = None
+            if t is not None and t[0] == 'map' and t[1] is not None and t[1][0] == 'inst' and repo.find_method(t[1][1], 'add') is not None:
+                cands.append(fi)
+                break
+    if len(cands) == 1:
+        repo.functions_touched.add(cands[0].key)
+        return cands[0]
+    return st.func('_get_route_stats')
 
 
 MAP_WRITERS = {'pop', 'popitem', 'clear', 'update', 'setdefault', '__delitem__', '__setitem__'}
@@ -1263,6 +1289,16 @@ def _judge_instance_source(repo, fi, L, expr, anchor, depth=0, ctx=None):
                        and 'StatsMiddleware' in norm(t.args[1]) for t, p in cs):
                 return False, 'the element is not chosen by isinstance(%s, StatsMiddleware)' % e.id
             return _judge_list(fi, L, loops[0].iter, loops[0])
+    if isinstance(e, ast.Name) and e.id in L.params and not L.counts.get(e.id) and e.id != _self_name(fi) and ctx is None and depth < 3:
+        # a parameter of a helper (the report assembled by a function that is handed the middleware): what every call site of the
+        # helper, anywhere in the analysed tree, passes for it -- each judged where it is evaluated
+        sites = _call_sites(repo, fi, e.id)
+        if not sites:
+            raise AnalysisError('%s: cannot tell where the stats middleware object %s comes from (%s)'
+                                % (fi.key, short(e), 'no call site found' if sites is not None else 'not every use of the function is a plain call'))
+        out = [_judge_instance_source(repo, cfi, diffcon.Locals(cfi.node, cfg_of(cfi)), arg, a_, depth + 1) for cfi, arg, a_ in sites]
+        bad = [o for o in out if not o[0]]
+        return bad[0] if bad else out[0]
     if isinstance(e, ast.Call) and depth < 3:
         callee = _callee(repo, fi, e)
         if callee is not None and len(e.args) == len(callee.params()) and not e.keywords:
@@ -1278,6 +1314,47 @@ def _judge_instance_source(repo, fi, L, expr, anchor, depth=0, ctx=None):
             bad = [o for o in out if not o[0]]
             return bad[0] if bad else out[0]
     raise AnalysisError('%s: cannot tell where the stats middleware object %s comes from' % (fi.key, short(e)))
+
+
+def _call_sites(repo, fi, name):
+    """[(calling function, argument expression, statement)]: what every call of ``fi`` in the analysed tree passes for parameter
+    ``name``.  None when not every use of the function is a plain call inside a function that resolves to it (the function handed
+    on as a value, called with * / **, the argument left to a default, a method call on an object of unknown class)."""
+    ps = fi.params()
+    sn = _self_name(fi)
+    pos = ps.index(name) - (1 if sn else 0)
+    out = []
+    for m in repo.all_internal_modules():
+        # every mention of the function's name that resolves to it is the callee of a call inside a function
+        for n in ast.walk(m.tree):
+            if isinstance(n, ast.Name) and n.id == fi.name and isinstance(n.ctx, ast.Load):
+                try:
+                    kind, _m, obj = repo.resolve(m, n.id)
+                except Exception:
+                    continue
+                if kind == 'func' and obj is fi:
+                    par = m.parents.get(n)
+                    if not (isinstance(par, ast.Call) and par.func is n) or m.enclosing_function(n) is None:
+                        return None
+        for other in [f for f in m.functions.values() if f.mod is m]:
+            for c in walk_body(other.node):
+                if not isinstance(c, ast.Call) or call_tail(c) != fi.name:
+                    continue
+                anchor = stmt_of(other.mod, c)
+                callee, _recv = _resolve_call(repo, other, c, anchor, 1)
+                if callee is not fi:
+                    if callee is None and isinstance(c.func, ast.Attribute):
+                        return None
+                    continue
+                if any(isinstance(a, ast.Starred) for a in c.args) or any(k.arg is None for k in c.keywords):
+                    return None
+                kw = [k.value for k in c.keywords if k.arg == name]
+                arg = kw[0] if kw else (c.args[pos] if 0 <= pos < len(c.args) else None)
+                if arg is None or anchor is None:
+                    return None
+                if not any(c is x[3] for x in out):
+                    out.append((other, arg, anchor, c))
+    return [x[:3] for x in out]
 
 
 def _judge_list(fi, L, it, anchor):
